@@ -31,6 +31,9 @@ def histories(tier):
     dec('3 blocks', bz2.compress(inputs.kind('N', 250000), 1))
     dec('1 block', bz2.compress(one, 9), ['-k'])
     dec('corrupt', bzgen.flip(bz2.compress(inputs.kind('N', 250000), 1), 100 * 8 + 3), valid=False)
+    # -v: progress messages on stderr before and after the operand; the log device may fail too
+    comp('1 block', one, ['-v'])
+    dec('1 block', bz2.compress(one, 9), ['-v'])
     if not quick:
         comp('3 blocks', three)
         comp('1 block', one, ['-k'])
@@ -82,7 +85,7 @@ def run(tier):
                 # removed (partial output in cleanup, or the input) stays by necessity
                 S1 = S1 or (in_ok and not stray)
                 S2 = S2 or (out_ok and not stray)
-            if c['inv'] & ~(32 | 64):
+            if c['inv'] & ~(32 | 64 | 128):
                 return 'scheduler counter invariant broken (%d)' % c['inv']
             if k == 'signal' and code == 9:
                 if in_ok or out_ok:
@@ -105,7 +108,7 @@ def run(tier):
                     return None
                 return 'exit status 4 leaves neither (input unchanged, no output) nor (complete output): ' + c['fs']
             if code == 1:
-                if c['stderr_len'] == 0:
+                if c['stderr_len'] == 0 and not (c['inv'] & 128):
                     return 'exit status 1 without a diagnostic'
                 if S1 or S2:
                     return None
@@ -113,7 +116,7 @@ def run(tier):
             return 'exit status %d' % code
         wenv = 'eio,enospc,efbig,epipe'
         ex.add('crash-points', 'fast', h['args'], None, orc, h['name'],
-               dict(opts, fenv='err,kill', sigs='int,term', wenv=wenv, renv='eio'), policies='P0,P2')
+               dict(opts, fenv='err,kill', sigs='int,term', wenv=wenv, renv='eio', senv='epipe,eio'), policies='P0,P2')
     done = 0
     for d in range(1, (2 if quick else 3) + 1):
         if not ex.run_pass(d):
@@ -121,7 +124,7 @@ def run(tier):
         done = d
     chk.cov['deviation_bound_completed'] = done
     tot = ex.finish_cov('every execution with <= d deviations; a deviation is: an errno failure of one system call (open/read/write/close/'
-                        'fchown/fchmod/futimens/unlink/lstat, each errno meaningful for it), SIGKILL just before or after one system call, '
+                        'fchown/fchmod/futimens/unlink/lstat, each errno meaningful for it), a failing flush of stderr (EPIPE+SIGPIPE, EIO) at one diagnostic/progress message, SIGKILL just before or after one system call, '
                         'SIGINT/SIGTERM at one scheduling point (every file operation is one), or one scheduling choice; '
                         'oracle on the directory after the run: S1 (input unchanged, nothing else) or S2 (complete output; input gone unless -k).')
     chk.cov['histories'] = len(ex.cells)
